@@ -835,6 +835,11 @@ pub fn repo_dictionary() -> &'static RepoDictionary {
                             if before.contains("env::var") || before.contains("env!(") || before.contains("var_os(") || before.contains("option_env!(") {
                                 env_vars.insert(lit.clone());
                             }
+                            // (also every literal that merely LOOKS like the name of an environment variable:
+                            // the name may sit in a constant)
+                            if lit.len() <= 40 && lit.starts_with(|c: char| c.is_ascii_uppercase()) && lit.chars().all(|c| c.is_ascii_uppercase() || c.is_ascii_digit() || c == '_') {
+                                env_vars.insert(lit.clone());
+                            }
                             literals.insert(lit);
                         }
                         k = j + 1;
